@@ -351,6 +351,8 @@ def run_extract(ctx, p):
     """base-level extraction call (the contracts judge); deg vs rad at the boundary"""
     import spatialmath.base as base
     R = np.asarray(p['R'], dtype=np.float64)
+    if p.get('layout'):
+        R = gen.layout(R, p['layout'])      # Fortran-ordered (e.g. loaded from a .mat file, or a transposed view), frozen, strided
     api = p['api']
     opts = dict(p.get('opts', {}))
     f = getattr(base, api)
@@ -401,6 +403,14 @@ def run_class(ctx, p):
         if cname == 'UnitQuaternion' and p.get('q') is not None:
             # quaternion given directly (either sign of the scalar part): same rotation, other cover
             X = C(np.asarray(p['q'], dtype=np.float64))
+        elif p.get('via') == 'inv' and cname in ('SO3', 'SE3', 'SO2', 'SE2'):
+            # the same value as the inverse of its inverse (what the object then holds may be a transposed view)
+            Mi = np.linalg.inv(M)
+            n_ = Mi.shape[0] - (1 if cname in ('SE3', 'SE2') else 0)
+            X = C(Mi, check=False).inv()
+            M = np.array(X.A)       # (the value that the object holds, to rounding of the inverse)
+        elif p.get('via') in gen.LAYOUTS[:4] and cname != 'UnitQuaternion':
+            X = C(gen.layout(M, p['via']))
         else:
             X = C(M) if cname != 'UnitQuaternion' else C(sm.SO3(M))
     except Exception as e:
@@ -577,6 +587,8 @@ def run(ctx):
         if rng.random() < 0.3:
             R = ref.rt2tr(R, gen.transl(rng))
         p = dict(api=api, R=R, opts=opts)
+        if rng.random() < 0.25:
+            p['layout'] = gen.LAYOUTS[rng.integers(4)]
         drive(RUNNERS, ctx, 'extract', p)
         if ctx.ncases % 1999 == 1:
             ctx.sample(dict(kind='extract', **p))
@@ -616,7 +628,8 @@ def run(ctx):
             # reference matrix -> quaternion (longdouble), random sign: scalar part negative half of the time
             q = gen.unit_quat(rng)
             M = ref.f64(ref.q2r(q))
-        drive(RUNNERS, ctx, 'class', dict(cls=cname, acc=acc, opts=opts, M=M, q=q))
+        via = (['inv'] + gen.LAYOUTS[:4])[rng.integers(5)] if (q is None and rng.random() < 0.35) else None
+        drive(RUNNERS, ctx, 'class', dict(cls=cname, acc=acc, opts=opts, M=M, q=q, via=via))
     for _ in range(ctx.scale(3000, 60000)):
         unit = ['rad', 'deg'][rng.integers(2)]
         A = lambda: ctors._ang(rng, unit)
